@@ -23,7 +23,7 @@ ASSUMPTIONS = [
     'a parameter is reported in the space of its prior: log10 of value and bounds under a log-space prior (name log_<p>), as is otherwise',
     'implied prior = the prior given with set_prior, else Uniform(bounds) / LogUniform(lin_bounds=bounds) by mode (C08)',
     'fit order = model parameters in the order the model lists them, then observation parameters',
-    'planet_sma is a documented alias of planet_distance and follows it',
+    'planet_sma is a documented alias of planet_distance and follows it; when both names are fitted the one later in fitting order determines the value',
     'bounds and values are positive (log modes are defined for them)',
 ]
 REQUIRED = {'recompile-after-change': 0.3, 'prior-mode-mismatch': 0.08, 'derived-toggled': 0.2, 'has-update': 0.3,
@@ -311,7 +311,10 @@ def check(case):
                 after = current()
                 out.applies('update-sets-fitted')
                 fitted_plain = [n[4:] if n.startswith('log_') and n[4:] in order and n not in order else n for n in fitted]
+                alias_ = {'planet_distance': 'planet_sma', 'planet_sma': 'planet_distance'}
                 for i, pn in enumerate(fitted_plain):
+                    if pn in alias_ and alias_[pn] in fitted_plain[i + 1:]:
+                        continue            # both names of one quantity are fitted: the later one in fitting order wins
                     want = float(pri[i].prior(vec[i]))
                     if not close(after[pn], want, rtol=1e-12):
                         out.fail('update-sets-fitted@%s' % ('mismatch' if mismatch else 'match'),
